@@ -114,6 +114,8 @@ func init() {
 		defer out.close()
 		n, classes := 0, map[string]int{}
 		var samples []any
+		var heldFrame, heldCopy []byte
+		var heldCase c01Case
 		err := readND(a[0], func(i int, raw []byte) error {
 			var c c01Case
 			if err := jsonUnmarshal(raw, &c); err != nil {
@@ -123,6 +125,13 @@ func init() {
 			got, sv, p := encodeLikeUser(c.Src, c.ID, c.Pser, c.Body)
 			cls := fmt.Sprintf("ver=%d frag=%d len%s", sv.Ver, sv.Frag, lenClass(len(c.Body)))
 			classes[cls]++
+			// a frame that was handed out stays what it was while later frames are encoded (it may still be queued for writing)
+			if heldFrame != nil && !bytes.Equal(heldFrame, heldCopy) {
+				out.put(mismatch{"encoded-frame-changed-by-a-later-encode " + cls, fmt.Sprintf("was %x, is %x after encoding the next frame", heldCopy, heldFrame), []c01Case{heldCase, c}})
+			}
+			if i%3 != 2 { // hold some frames across two later encodes
+				heldFrame, heldCopy, heldCase = got, append([]byte{}, got...), c
+			}
 			if len(samples) < 3 && len(c.Body) > 2 {
 				samples = append(samples, c)
 			}
@@ -297,7 +306,7 @@ func randHdr(r *rand.Rand) hdrSpec {
 func randTerminalFrame(r *rand.Rand, i int) B {
 	h := randHdr(r)
 	h.body = randBody(r, i*7+1)
-	if len(h.body) > 64 {
+	if len(h.body) > 64 && r.Intn(4) != 0 { // mostly short sources; one in four keeps its length (511/512/1023: the source's own length bits)
 		h.body = h.body[:r.Intn(64)]
 	}
 	return buildFrame(h)
